@@ -139,7 +139,23 @@ impl Prop for PWalk {
             args.insert(k + 1, "%i\\0".into());
         }
         let errf = dir.parent().unwrap().join("stderr.txt");
-        let r = run_find_inproc(&dir, &args, None, &errf);
+        let noread: Vec<usize> = (1..=tree.len()).filter(|i| tree[*i - 1].extra.get("noread").and_then(|b| b.as_bool()).unwrap_or(false)).collect();
+        let r = if noread.is_empty() {
+            run_find_inproc(&dir, &args, None, &errf)
+        } else {
+            // directories that cannot be read: permissions 000, and the real binary run as an unprivileged user
+            // (root reads everything)
+            use std::os::unix::fs::PermissionsExt;
+            for i in &noread {
+                let _ = std::fs::set_permissions(dir.join(node_path(&tree, *i)), std::fs::Permissions::from_mode(0));
+            }
+            let _ = std::fs::set_permissions(dir.parent().unwrap(), std::fs::Permissions::from_mode(0o777));
+            let r = run_find_bin(&dir, &args, None, &[("VH_SETUID".to_string(), "65534".to_string())], 60);
+            for i in &noread {
+                let _ = std::fs::set_permissions(dir.join(node_path(&tree, *i)), std::fs::Permissions::from_mode(0o755));
+            }
+            r
+        };
         if r.panicked {
             return json!({"panic": true, "args": args});
         }
@@ -334,6 +350,25 @@ impl Prop for PWalk {
                            "cfg": {"mode": "P", "min": min, "max": max, "depth": depth, "sorted": true, "prune": []},
                            "form": rng.below(30), "byino": true});
             return v;
+        }
+        if self.flavour == "C02" && idx % 6 == 2 && !use_files0 {
+            // one or two directories that cannot be read (not a link target: the model keeps that simple)
+            for i in 1..=n {
+                // neither the directory nor anything beneath it is the target of a link: such a link could not be resolved
+                let beneath = |mut k: usize| -> bool {
+                    while k != 0 {
+                        if k == i {
+                            return true;
+                        }
+                        k = tree[k - 1]["parent"].as_u64().unwrap_or(0) as usize;
+                    }
+                    false
+                };
+                let is_target = tree.iter().any(|t: &Value| t["target"].as_u64().map(|x| x > 0 && beneath(x as usize)).unwrap_or(false));
+                if tree[i - 1]["kind"] == "d" && !is_target && rng.chance(1, 3) {
+                    tree[i - 1]["noread"] = json!(true);
+                }
+            }
         }
         let roots_last_empty = roots.last().map(|r| arr(&r["spell"]).is_empty()).unwrap_or(false);
         let mut v = json!({"tree": tree, "roots": roots, "cfg": cfg, "form": rng.below(30)});
